@@ -955,6 +955,9 @@ func (e *Engine) specConst(name string, env *evalEnv) (Val, bool) {
 		}
 		return Val{S: env.st.heaps[name], T: specBool}, true
 	}
+	if v, ok := e.pkgConst(name); ok {
+		return v, true
+	}
 	if v, ok := e.ghostConst(name, env); ok {
 		return v, true
 	}
@@ -1014,6 +1017,19 @@ func (e *Engine) evalCall(y *ECall, env *evalEnv) Val {
 		if id, ok := y.Args[0].(*EIdent); ok {
 			v, _ := e.specConst("called_"+mangle(id.Name), env)
 			return v
+		}
+	case "arg":
+		// arg(F, p): the value passed for parameter p in the last call of layer function F
+		if len(y.Args) == 2 {
+			f, ok1 := y.Args[0].(*EIdent)
+			p, ok2 := y.Args[1].(*EIdent)
+			if ok1 && ok2 {
+				hn := "callarg_" + mangle(f.Name) + "_" + mangle(p.Name)
+				if t, ok := e.callArgTypes[hn]; ok {
+					return Val{S: e.heap(env.st, hn, e.heapSorts[hn]), T: t}
+				}
+				return e.evalErr("contract-stale: no call of " + f.Name + " with parameter " + p.Name + " on any path")
+			}
 		}
 	case "has":
 		// has(m, k): key present in a Go map (ghost stores are handled by specFunc)
@@ -1394,4 +1410,65 @@ func replaceToken(s, tok, with string) string {
 		i = end
 	}
 	return b.String()
+}
+
+// pkgConst resolves "pkg.Const" (package name as imported by the function under verification, or its own
+// package's constants unqualified) to the constant's value.
+func (e *Engine) pkgConst(name string) (Val, bool) {
+	pkgName, cname := "", name
+	if i := strings.Index(name, "."); i >= 0 {
+		pkgName, cname = name[:i], name[i+1:]
+		if strings.Contains(cname, ".") {
+			return Val{}, false
+		}
+	}
+	var own *types.Package
+	if e.root.Pkg != nil {
+		own = e.root.Pkg.Pkg
+	} else if o := e.root.Origin(); o != nil && o.Pkg != nil {
+		own = o.Pkg.Pkg
+	}
+	if own == nil {
+		return Val{}, false
+	}
+	var cands []*types.Package
+	if pkgName == "" {
+		cands = []*types.Package{own}
+	} else {
+		for _, imp := range own.Imports() {
+			if imp.Name() == pkgName || strings.HasSuffix(imp.Path(), "/"+pkgName) {
+				cands = append(cands, imp)
+			}
+		}
+		// import aliases are not visible in go/types; fall back to any loaded repo package with a matching constant
+		if len(cands) == 0 {
+			for _, p := range e.prog.Pkgs {
+				if p.Types != nil && strings.HasPrefix(p.PkgPath, modPath) && p.Types.Scope().Lookup(cname) != nil {
+					cands = append(cands, p.Types)
+				}
+			}
+		}
+	}
+	for _, p := range cands {
+		if o, ok := p.Scope().Lookup(cname).(*types.Const); ok {
+			c := ssa.NewConst(o.Val(), o.Type())
+			v := e.constVal(c)
+			return v, true
+		}
+	}
+	// import aliases (e.g. layertypes): search imports for the constant by name only
+	if pkgName != "" {
+		var found *types.Const
+		n := 0
+		for _, imp := range own.Imports() {
+			if o, ok := imp.Scope().Lookup(cname).(*types.Const); ok && strings.HasPrefix(imp.Path(), modPath) {
+				found = o
+				n++
+			}
+		}
+		if n == 1 {
+			return e.constVal(ssa.NewConst(found.Val(), found.Type())), true
+		}
+	}
+	return Val{}, false
 }
